@@ -7,8 +7,8 @@ from . import common, progs
 ID = 'C15'
 LEVEL = 'exploration'
 TIERS = {
-    'quick': {'cases': 144 + 2400, 'wall': 100, 'chunk': 12},
-    'thorough': {'cases': 144 + 80000, 'wall': 1500, 'chunk': 24},
+    'quick': {'cases': 144 + 60 + 2400, 'wall': 100, 'chunk': 12},
+    'thorough': {'cases': 144 + 60 + 80000, 'wall': 1500, 'chunk': 24},
 }
 RULE = ('cases 0..143: the PREEMPT MATRIX (seed independent) - a defeat function with a preempt block in each of 12 '
         'placements x {defeats itself, defeats conditionally, returns} x caller try/undo | try/stop x {followed by '
@@ -67,15 +67,48 @@ def preempt_prog(job):
     return nlp_prog(sh, follow, kind, tail=t)
 
 
+# ---- layout matrix (seed independent): a filled byte array, then a dynamic array of every element type with a
+# boundary run-time length (for bool also the lengths within 8 of the largest signed word, on a stack that holds
+# them), then a small int array; everything is written and read back.  The size arithmetic of the two builds must
+# place the three arrays alike (after seeded change C15-11: a shorter size formula in unchecked builds only).
+LMATRIX = [(el, n, W) for el in ('int', 'byte', 'bool', 'string') for n in ('0', '1', '7', '8', '9', '17') for W in (2, 3)]
+LMATRIX += [('bool', n, W) for n in ('max-8', 'max-7', 'max-6', 'max-3', 'max-1', 'max') for W in (2, 3)]
+
+
+def layout_job(job):
+    from ..build import (I, S, V, B, C, call, ex, write, dyn, setv, block, if_, for_up, bin_, idx, ln, is_, func, prog, decl)
+    el, n, W = job
+    maxs = (1 << (8 * W - 1)) - 1
+    v = maxs - int(n[4:]) if n.startswith('max-') else (maxs if n == 'max' else int(n))
+    val = {'int': I(12345), 'byte': C('z'), 'bool': B(True), 'string': S('st')}[el]
+    last = idx('d', bin_('-', ln('d'), I(1)))
+    body = [dyn('byte', 'line', I(40)), for_up('i', I(0), I(40), setv(idx('line', V('i')), is_(bin_('+', bin_('%', V('i'), I(26)), I(65)), 'byte'))),
+            dyn(el, 'd', V('fz')),
+            if_(bin_('>', ln('d'), I(0)), block(setv(idx('d', I(0)), val), setv(last, val))),
+            dyn('int', 'c', I(2)), setv(idx('c', I(0)), I(11111)), setv(idx('c', I(1)), I(22222)),
+            for_up('i', I(0), I(40), write(idx('line', V('i')))), write(S('|')), write(ln('d')), write(S('|')),
+            if_(bin_('>', ln('d'), I(0)), block(write(idx('d', I(0))), write(last))),
+            write(S('|')), write(idx('c', I(0))), write(idx('c', I(1)))]
+    stack = (v >> 3) // W + 700 if v > 1000 else 700
+    return prog([], [func('empty', '@is_you', [('int', 'fz')], *body)]), [str(v)], stack
+
+
 def case(seed, idx, tier):
     rnd = case_rng(seed, ID, idx)
+    fixed_stack = None
     if idx < len(PMATRIX):
         p, argv = preempt_prog(PMATRIX[idx])
         W, kind = (2, 3, 4, 8)[idx % 4], 'preempt_matrix'
+    elif idx < len(PMATRIX) + len(LMATRIX):
+        job = LMATRIX[idx - len(PMATRIX)]
+        p, argv, fixed_stack = layout_job(job)
+        W, kind = job[2], 'layout_matrix'
     else:
         p, argv, W, kind = progs.draw(rnd)
     poison = rnd.randrange(1 << 30) if idx % 3 == 0 else None
     stack = rnd.choice((common.GENEROUS, 1500, 800))
+    if fixed_stack is not None:
+        stack = fixed_stack
     res = common.new_result()
     viol, info, cfg = judge(p, argv, W, stack, poison)
     evc, evu = info['evc'], info['evu']
